@@ -5,7 +5,8 @@ use super::*;
 #[derive(Clone, Copy)]
 pub struct HRow { pub space: u8, pub script: Script, pub number: u64, pub ti: u32, pub ci: u32, pub out: bool, pub tx: u8 }
 
-fn any_script() -> Script { let alen: usize = kani::any(); kani::assume(alen <= 2); Script::of(kani::any(), kani::any(), kani::any(), kani::any(), alen) }
+/// a script with a CONCRETE args length: every key length is then concrete, which keeps CBMC's symbolic execution of the byte-level code cheap
+fn script_of_len(alen: usize) -> Script { Script::of(kani::any(), kani::any(), kani::any(), kani::any(), alen) }
 /// one script's raw data (code hash ++ hash type ++ args) is a proper prefix of the other's, or of the other's followed by key bytes:
 /// same code hash / hash type and different args lengths with the shorter args a prefix of the longer, or the shorter one followed by anything
 fn alias_risk(a: &Script, b: &Script) -> bool { a.code == b.code && a.ht == b.ht && a.alen != b.alen }
@@ -23,18 +24,24 @@ fn script_key(ss: &ScriptStatus) -> Vec<u8> {
     let mut k = Key::Meta(FILTER_SCRIPTS_KEY).into_vec(); k.extend_from_slice(ss.script.as_slice()); k.push(match ss.script_type { ScriptType::Lock => 0, ScriptType::Type => 1 }); padded(&k)
 }
 fn min_key() -> Vec<u8> { padded(&Key::Meta(MIN_FILTERED_BLOCK_NUMBER).into_vec()) }
+/// a key as two big-endian words + length (keys are zero padded): integer comparisons instead of byte loops
+#[derive(Clone, Copy, PartialEq, Eq)] pub struct KW { k0: u128, k1: u64, len: usize }
+fn kw(k: &Vec<u8>) -> KW { let (k0, k1) = words(k); KW { k0, k1, len: k.len } }
+fn is(o: &Op, k: &KW) -> bool { o.k0 == k.k0 && o.k1 == k.k1 && o.klen == k.len }
+fn val(v: &[u8]) -> u64 { let mut b = [0u8; 8]; let mut i = 0; while i < 8 { if i < v.len() { b[i] = v[i]; } i += 1; } u64::from_le_bytes(b) }
 fn batch() -> &'static Batch { unsafe { COMMITTED.as_ref().unwrap() } }
-/// index of the first op (put / delete) with that key, by value through constant indices
-fn find(put: bool, k: &Vec<u8>) -> Option<usize> { let b = batch(); let mut r = None; let mut i = OPS; while i > 0 { i -= 1; if i < b.n { let o = b.ops[i]; if o.put == put && o.k == *k { r = Some(i); } } } r }
-fn find_put_val(k: &Vec<u8>, v: &[u8]) -> Option<usize> { let b = batch(); let mut r = None; let mut i = OPS; while i > 0 { i -= 1; if i < b.n { let o = b.ops[i]; if o.put && o.k == *k && o.vlen == v.len() && o.v[..o.vlen] == *v { r = Some(i); } } } r }
-fn touched(k: &Vec<u8>) -> bool { let b = batch(); let mut t = false; let mut i = 0; while i < OPS { if i < b.n { let o = b.ops[i]; if o.k == *k { t = true; } } i += 1; } t }
+/// index of the first op (put / delete) with that key
+fn find(put: bool, k: &Vec<u8>) -> Option<usize> { let b = batch(); let k = kw(k); let mut r = None; let mut i = OPS; while i > 0 { i -= 1; if i < b.n { let o = b.ops[i]; if o.put == put && is(&o, &k) { r = Some(i); } } } r }
+fn find_put_val(k: &Vec<u8>, v: &[u8]) -> Option<usize> { let b = batch(); let k = kw(k); let vv = val(v); let mut r = None; let mut i = OPS; while i > 0 { i -= 1; if i < b.n { let o = b.ops[i]; if o.put && is(&o, &k) && o.vlen == v.len() && o.v == vv { r = Some(i); } } } r }
+fn touched(k: &Vec<u8>) -> bool { let b = batch(); let k = kw(k); let mut t = false; let mut i = 0; while i < OPS { if i < b.n { let o = b.ops[i]; if is(&o, &k) { t = true; } } i += 1; } t }
 
-pub fn rollback_step(prefix_related: bool) {
+pub fn rollback_step<const A0: usize, const A1: usize, const A2: usize>(prefix_related: bool) {
     let to: u64 = kani::any();
     // registered scripts (distinct)
-    let nscripts: usize = kani::any(); kani::assume(nscripts <= 2);
-    let s0 = any_script();
-    let s1 = if prefix_related { let mut a = s0; kani::assume(s0.alen <= 1); let x: u8 = kani::any(); if s0.alen == 0 { Script::of(s0.code, s0.ht, x, 0, 1) } else { Script::of(s0.code, s0.ht, s0.args[0], x, 2) } } else { any_script() };
+    let nscripts: usize = kani::any(); kani::assume(nscripts <= MAXS);
+    let s0 = script_of_len(A0);
+    // prefix_related: s1 continues s0 by one args byte (A1 == A0 + 1)
+    let s1 = if prefix_related { let x: u8 = kani::any(); if A0 == 0 { Script::of(s0.code, s0.ht, x, 0, 1) } else { Script::of(s0.code, s0.ht, s0.args[0], x, 2) } } else { script_of_len(A1) };
     let scripts = [ScriptStatus { script: s0, script_type: if kani::any() { ScriptType::Lock } else { ScriptType::Type }, block_number: kani::any() },
                    ScriptStatus { script: s1, script_type: if kani::any() { ScriptType::Lock } else { ScriptType::Type }, block_number: kani::any() }];
     if nscripts == 2 { kani::assume(!(same_script(&s0, &s1) && scripts[0].script_type == scripts[1].script_type)); if !prefix_related { kani::assume(!alias_risk(&s0, &s1)); } }
@@ -50,7 +57,7 @@ pub fn rollback_step(prefix_related: bool) {
     let mut i = 0;
     while i < NROWS {
         let which: u8 = kani::any(); let space: u8 = kani::any(); kani::assume(space <= 2);
-        let script = if which == 0 { s0 } else if which == 1 { s1 } else { any_script() };
+        let script = if which == 0 { s0 } else if which == 1 { s1 } else { script_of_len(A2) };
         let tx: u8 = kani::any(); kani::assume((tx as usize) < NTX);
         let r = HRow { space, script, number: kani::any(), ti: kani::any(), ci: kani::any(), out: kani::any(), tx };
         kani::assume(r.number < u64::MAX);     // the reverse scan starts at prefix ++ u64::MAX: a row AT block 2^64-1 lies beyond it (not a reachable block number)
@@ -121,5 +128,15 @@ pub fn rollback_step(prefix_related: bool) {
     kani::cover!(nrows == NROWS && expected >= 4, "several rows rolled back");
 }
 
-#[cfg(kani)] #[kani::proof] #[kani::unwind(26)] pub fn rollback_any() { rollback_step(false); }
-#[cfg(kani)] #[kani::proof] #[kani::unwind(26)] pub fn rollback_prefix_related() { rollback_step(true); }
+/// every pair of args lengths of the two registered scripts, one third-party length each (quick tier)
+pub fn rollback_any_body() {
+    let sel: u8 = kani::any(); kani::assume(sel < 9);
+    match sel { 0 => rollback_step::<0, 0, 0>(false), 1 => rollback_step::<1, 1, 1>(false), 2 => rollback_step::<2, 2, 2>(false), 3 => rollback_step::<0, 1, 2>(false), 4 => rollback_step::<1, 2, 0>(false),
+                5 => rollback_step::<2, 0, 1>(false), 6 => rollback_step::<0, 2, 1>(false), 7 => rollback_step::<1, 0, 2>(false), _ => rollback_step::<2, 1, 0>(false) }
+}
+pub fn rollback_prefix_body() {
+    let sel: u8 = kani::any(); kani::assume(sel < 6);
+    match sel { 0 => rollback_step::<0, 1, 0>(true), 1 => rollback_step::<0, 1, 1>(true), 2 => rollback_step::<0, 1, 2>(true), 3 => rollback_step::<1, 2, 0>(true), 4 => rollback_step::<1, 2, 1>(true), _ => rollback_step::<1, 2, 2>(true) }
+}
+#[cfg(kani)] #[kani::proof] #[kani::unwind(26)] pub fn rollback_any() { rollback_any_body(); }
+#[cfg(kani)] #[kani::proof] #[kani::unwind(26)] pub fn rollback_prefix_related() { rollback_prefix_body(); }
